@@ -43,16 +43,27 @@ func c13Time(t *rapid.T, label string) ledger.Time {
 	s := gen.TimestampString().Draw(t, label)
 	ts, err := ledger.ParseTime(s)
 	if err != nil {
+		// the only spellings the API may refuse are those whose rounding to microseconds leaves the
+		// range RFC 3339 can spell (year 10000): such a timestamp is not one "the API accepts"
+		if raw, perr := time.Parse(time.RFC3339Nano, s); perr == nil && raw.Round(time.Microsecond).Year() > 9999 {
+			ts, _ = ledger.ParseTime("9999-12-31T23:59:59.999999Z")
+			return ts
+		}
 		t.Fatalf("HARNESS-ERROR generated timestamp %q refused: %v", s, err)
 	}
 	return ts
 }
 
 // c13LogDate draws a log date the way the system produces it: ledger.Now()
-// at some instant, i.e. UTC rounded to microseconds.
+// at some instant, i.e. UTC rounded to microseconds (the drawn wall-clock
+// fields are read as UTC; the clock never shows an instant outside years 0-9999).
 func c13LogDate(t *rapid.T) ledger.Time {
-	ts := c13Time(t, "logDate")
-	return ledger.Time{Time: ts.Time.UTC().Round(ledger.DatePrecision)}
+	tt := c13Time(t, "logDate").Time
+	u := time.Date(tt.Year(), tt.Month(), tt.Day(), tt.Hour(), tt.Minute(), tt.Second(), tt.Nanosecond(), time.UTC).Round(ledger.DatePrecision)
+	if u.Year() > 9999 {
+		u = u.Add(-time.Microsecond)
+	}
+	return ledger.Time{Time: u}
 }
 
 func c13Tx(t *rapid.T) *ledger.Transaction {
@@ -368,7 +379,7 @@ func c13EngineWritten(rt *rapid.T, c *evid.Collector) {
 
 func TestC13(t *testing.T) {
 	c := evid.New("C13")
-	c.Rule = "generated chains of 1-12 log entries (all 7 kind x target shapes built with the code's constructors; API-format timestamps through ledger.ParseTime; amounts to 10^40; nil/empty/unicode/HTML/long metadata; references; idempotency keys); one case in ten instead lets a real Commander write 2-8 entries (every kind of write, keyed or not, metadata nil / empty / filled, a quarter of the requests previews that must leave the chain alone) and judges what it persisted. evaluations = log entries judged. Non-trivial = entry that is not a bare new-transaction with one posting, no metadata, no key; distinct = by canonical JSON of the entry."
+	c.Rule = "generated chains of 1-12 log entries (all 7 kind x target shapes built with the code's constructors; API-format timestamps through ledger.ParseTime, years 0000-9999 with both ends of the range in UTC and with offsets pointing out of it; amounts to 10^40; nil/empty/unicode/HTML/long metadata; references; idempotency keys); one case in ten instead lets a real Commander write 2-8 entries (every kind of write, keyed or not, metadata nil / empty / filled, a quarter of the requests previews that must leave the chain alone) and judges what it persisted. evaluations = log entries judged. Non-trivial = entry that is not a bare new-transaction with one posting, no metadata, no key; distinct = by canonical JSON of the entry."
 	c.Assumptions = []string{
 		"PostgreSQL jsonb is emulated by a generic decode (exact numbers) and re-encode; timestamptz by an instant truncated to microseconds returned as time.Time",
 		"log dates are what ledger.Now() yields (UTC, microsecond precision), as in every constructor call of the engine",
